@@ -8,7 +8,7 @@ KINDS = ["func", "method", "classmethod", "staticmethod", "property", "inherited
 # resolvability class of each kind (DESIGN 3.4)
 MAY = {"lambda", "setprop", "nested_static"}
 FLAVOUR_OK = {"func", "method", "classmethod", "staticmethod", "inherited", "wrapped", "innerclass", "override"}
-EXITS = ["const", "constnone", "expr", "param", "implicit", "raise", "cond"]
+EXITS = ["const", "constnone", "expr", "param", "implicit", "raise", "cond", "condnone"]
 PK = ["posonly", "poskw", "kwonly"]
 
 
@@ -277,6 +277,10 @@ def render(prog):
             B.append(f"{ind}return {ret_first}" if ret_first else f"{ind}return (1, 2)")
         elif e == "cond":
             B.append(f"{ind}return (1 if {ret_first} else 's')" if ret_first else f"{ind}return 1.5")
+        elif e == "condnone":
+            # returns a value in some calls and None in others (for a generator: `return <value>` vs falling off the end)
+            B.append(f"{ind}if {ret_first}:" if ret_first else f"{ind}if S.R.fuel_left:")
+            B.append(f"{ind}    return 'value'")
         elif e == "raise":
             B.append(f"{ind}raise S.BadExit('x')")
         elif e == "implicit":
